@@ -1,0 +1,47 @@
+//go:build verif
+
+// Package verifhooks re-exports internal helpers for the external verification
+// harness. It only exists when the "verif" build tag is set.
+package verifhooks
+
+import (
+	"io"
+
+	"github.com/privacybydesign/gabi/big"
+	"github.com/privacybydesign/gabi/internal/common"
+)
+
+type (
+	CPRNG   = common.CPRNG
+	FastMod = common.FastMod
+)
+
+var ErrNoModInverse = common.ErrNoModInverse
+
+func HashCommit(values []*big.Int, issig bool) *big.Int { return common.HashCommit(values, issig) }
+func GetHashNumber(a, b *big.Int, index int, bitlen uint) *big.Int {
+	return common.GetHashNumber(a, b, index, bitlen)
+}
+func IntHashSha256(input []byte) *big.Int               { return common.IntHashSha256(input) }
+func ModInverse(a, n *big.Int) (*big.Int, bool)         { return common.ModInverse(a, n) }
+func ModPow(x, y, m *big.Int) (*big.Int, error)         { return common.ModPow(x, y, m) }
+func LegendreSymbol(a, p *big.Int) int                  { return common.LegendreSymbol(a, p) }
+func Crt(a, pa, b, pb *big.Int) *big.Int                { return common.Crt(a, pa, b, pb) }
+func PrimeSqrt(a, pa *big.Int) (*big.Int, bool)         { return common.PrimeSqrt(a, pa) }
+func ModSqrt(a *big.Int, f []*big.Int) (*big.Int, bool) { return common.ModSqrt(a, f) }
+func SumFourSquares(n *big.Int) (*big.Int, *big.Int, *big.Int, *big.Int) {
+	return common.SumFourSquares(n)
+}
+func RandomPrimeInRange(r io.Reader, start, length uint) (*big.Int, error) {
+	return common.RandomPrimeInRange(r, start, length)
+}
+func RepresentToBases(bases, exps []*big.Int, modulus *big.Int, maxLen uint) *big.Int {
+	return common.RepresentToBases(bases, exps, modulus, maxLen)
+}
+func NewCPRNG(seed *[32]byte) (*CPRNG, error)     { return common.NewCPRNG(seed) }
+func FastRandomBigInt(limit *big.Int) *big.Int    { return common.FastRandomBigInt(limit) }
+func RandomQR(n *big.Int) *big.Int                { return common.RandomQR(n) }
+func RandomBigInt(numBits uint) (*big.Int, error) { return common.RandomBigInt(numBits) }
+
+// SetVerifPoint installs the callback invoked at named instrumentation points.
+func SetVerifPoint(f func(name string)) { common.SetVerifPoint(f) }
